@@ -28,7 +28,7 @@ ASSUMPTIONS = [
 
 def plan(tier, seed):
     cases = espace.plan_shards(tier, parsers=False)
-    pol = espace.plan_shards(tier, parsers=False, bases=["frame"], extra={"backend": "polars"})
+    pol = espace.plan_shards(tier, parsers=False, bases=["frame"], extra={"backend": "polars"}, quick_pairs=())
     return {"cases": cases + pol, "exhaustive": True, "bounds": dict(espace.BOUNDS_TEXT, tier=tier),
             "rule": "state = distinct (schema, table) pair, each validated eagerly and lazily; non-trivial = the lazy run "
                     "collected at least one error; 'multi' counter = cases with >= 2 simultaneous errors"}
